@@ -36,6 +36,10 @@ def check(ctx: Ctx) -> None:
     c05_r1(ctx, "C09.R6")
     r1_noskip(ctx, "C09.R7")
     c05_r3(ctx, "C09.R8")
+    # "failed commits leave every retained snapshot readable": a raise after the commit point runs the deleting rollback
+    # over the files of a snapshot that IS committed
+    from .c04 import r2 as c04_r2
+    ctx.shared(c04_r2, "C04.R2", "C09.R9", "a committed snapshot's files are never rolled back")
 
 
 # ------------------------------------------------------------------ freshness
